@@ -1,6 +1,7 @@
 package rules
 
 import (
+	"fmt"
 	"go/ast"
 	"go/constant"
 	"go/token"
@@ -167,7 +168,12 @@ func goLits(body *ast.BlockStmt) []*ast.GoStmt {
 	return out
 }
 
-func exprString(e ast.Expr) string { return types.ExprString(e) }
+func exprString(e ast.Expr) string {
+	if t, ok := e.(*tupleResult); ok {
+		return fmt.Sprintf("result %d of %s", t.idx, types.ExprString(t.call))
+	}
+	return types.ExprString(e)
+}
 
 // implementers lists the named types of the module whose pointer implements the interface rel.Name.
 func (c *Ctx) implementers(rel, ifaceName string) []*types.Named {
